@@ -26,16 +26,15 @@ Record tables06 := {
   t_names : list nat
 }.
 
-Definition model06 (strict_none : bool) (rt : runtime) (E : env) (fuel : nat) (t : ty) (x : pv) : res pv :=
-  if strict_none then mar_fixed rt E fuel t x else mar rt E fuel t x.
+Definition model06 (rt : runtime) (E : env) (fuel : nat) (t : ty) (x : pv) : res pv := mar rt E fuel t x.
 
 (* bit 0: result differs; bit 1: fully-annotated verdict differs; bit 2: validity verdict differs;
    bit 3: wire verdict on the model's result differs *)
-Definition case06_code (strict_none : bool) (rt : runtime) (E : env) (tb : tables06) (fuel : nat) (c : case06) : nat :=
+Definition case06_code (rt : runtime) (E : env) (tb : tables06) (fuel : nat) (c : case06) : nat :=
   match c with (t, x, obs, py_fa, py_valid, py_wire) =>
     let rl := mem_nat (t_robust tb) in
     let R := mem_nat (t_R tb) in
-    let m := model06 strict_none rt E fuel t x in
+    let m := model06 rt E fuel t x in
     let fa := fa_ty rl rl true R R t in
     let va := valid rt E (mem_leafcall (t_valid tb)) fuel t x in
     (if res_sim false m obs then 0 else 1) +
@@ -49,10 +48,10 @@ Fixpoint codes_from (f : case06 -> nat) (l : list case06) (i : nat) : list (nat 
   | [] => []
   | c :: r => (match f c with 0 => [] | k => [(i, k)] end) ++ codes_from f r (S i)
   end.
-Definition bad06 (strict_none : bool) (rt : runtime) (E : env) (tb : tables06) (fuel : nat) (l : list case06) :=
-  map fst (codes_from (case06_code strict_none rt E tb fuel) l 0).
-Definition bad06_codes (strict_none : bool) (rt : runtime) (E : env) (tb : tables06) (fuel : nat) (l : list case06) :=
-  map snd (codes_from (case06_code strict_none rt E tb fuel) l 0).
+Definition bad06 (rt : runtime) (E : env) (tb : tables06) (fuel : nat) (l : list case06) :=
+  map fst (codes_from (case06_code rt E tb fuel) l 0).
+Definition bad06_codes (rt : runtime) (E : env) (tb : tables06) (fuel : nat) (l : list case06) :=
+  map snd (codes_from (case06_code rt E tb fuel) l 0).
 
 (* the self-consistency of the sets handed over by the harness: hypotheses env_robust / env_fa of the theorems *)
 Definition sets_ok (E : env) (tb : tables06) : bool :=
